@@ -26,6 +26,7 @@ func init() {
 func runC17(p *load.Program, r *oblig.Report) {
 	c17DontExpectEOF(p, r)
 	c17BatchEOF(p, r)
+	c17DiscardReportsShortStream(p, r)
 	c17MergeFailures(p, r, "C17.R10 a merged response is complete: a failed part fails the whole")
 	c17Sticky(p, r)
 	c17Shared(p, r)
